@@ -1,1 +1,203 @@
-import Simfile.Model.Dir
+/-
+C19 — simfile discovery: extension matching, `SimfileDirectory` (which .sm / .ssc entry is found, duplicates),
+`SimfileDirectory.open` (SSC preferred), `SimfilePack` (which sub-directories are simfile directories).
+Vocabulary (Simfile/Lemmas/Dir.lean):
+  `DirL.isSm n  = endsWith (lower n) ".sm"`,  `DirL.isSsc n = endsWith (lower n) ".ssc"`  (pinned below).
+-/
+import Simfile.Lemmas.Dir
+namespace Simfile.C19
+open Simfile Simfile.DirL
+
+/-! ### 11. extension matching -/
+
+theorem exts : T.simfileExts = [".ssc".toList, ".sm".toList] := by decide
+
+theorem isSm_def (name : Str) : isSm name = endsWith (lower name) ".sm".toList := by
+  have : ".sm".toList = extSM := by decide
+  rw [this]; rfl
+
+theorem isSsc_def (name : Str) : isSsc name = endsWith (lower name) ".ssc".toList := by
+  have : ".ssc".toList = extSSC := by decide
+  rw [this]; rfl
+
+theorem ext_match_sm (name : Str) :
+    extMatch name T.simfileExts = some ".sm".toList ↔ endsWith (lower name) ".sm".toList = true := by
+  have : ".sm".toList = extSM := by decide
+  rw [this]
+  exact extMatch_eq_sm_iff name
+
+theorem ext_match_ssc (name : Str) :
+    extMatch name T.simfileExts = some ".ssc".toList ↔ endsWith (lower name) ".ssc".toList = true := by
+  have : ".ssc".toList = extSSC := by decide
+  rw [this]
+  exact extMatch_eq_ssc_iff name
+
+/-- the two extensions exclude each other, so the order of the table does not matter -/
+theorem sm_ssc_exclusive (s : Str) : ¬ (endsWith s ".sm".toList = true ∧ endsWith s ".ssc".toList = true) := by
+  have e1 : ".sm".toList = extSM := by decide
+  have e2 : ".ssc".toList = extSSC := by decide
+  rw [e1, e2]
+  rintro ⟨h1, h2⟩
+  rw [not_sm_of_ssc s h2] at h1
+  cases h1
+
+theorem ext_match_none (name : Str) :
+    extMatch name T.simfileExts = none ↔
+      endsWith (lower name) ".sm".toList = false ∧ endsWith (lower name) ".ssc".toList = false := by
+  rw [← isSm_def, ← isSsc_def, extMatch_simfile]
+  cases isSsc name <;> cases isSm name <;> simp
+
+/-- in general: the answer is an extension of the list that the lower-cased name ends with, the first such -/
+theorem ext_match_general (name : Str) (es : List Str) (e : Str) :
+    extMatch name es = some e ↔
+      ∃ pre post, es = pre ++ e :: post ∧ endsWith (lower name) e = true ∧
+        ∀ x ∈ pre, endsWith (lower name) x = false := by
+  unfold extMatch
+  rw [List.find?_eq_some_iff_append]
+  constructor
+  · rintro ⟨h, pre, post, rfl, hpre⟩
+    exact ⟨pre, post, rfl, h, fun x hx => by simpa using hpre x hx⟩
+  · rintro ⟨pre, post, rfl, h, hpre⟩
+    exact ⟨h, pre, post, rfl, fun x hx => by simpa using hpre x hx⟩
+
+-- near misses and case-insensitivity
+example : extMatch "x.sm.old".toList T.simfileExts = none := by decide +kernel
+example : extMatch "y.ssca".toList T.simfileExts = none := by decide +kernel
+example : extMatch "sm".toList T.simfileExts = none := by decide +kernel
+example : extMatch "ssc".toList T.simfileExts = none := by decide +kernel
+example : extMatch "x.sm ".toList T.simfileExts = none := by decide +kernel
+example : extMatch "x.s.m".toList T.simfileExts = none := by decide +kernel
+example : extMatch "Song.SM".toList T.simfileExts = some ".sm".toList := by decide +kernel
+example : extMatch "Song.Ssc".toList T.simfileExts = some ".ssc".toList := by decide +kernel
+example : extMatch ".sm".toList T.simfileExts = some ".sm".toList := by decide +kernel
+example : extMatch "a.ssc.sm".toList T.simfileExts = some ".sm".toList := by decide +kernel
+
+/-! ### 12. scanning a directory -/
+
+/-- a successful scan reports the FIRST .sm entry and the FIRST .ssc entry of the listing -/
+theorem dir_paths (listing : List Str) (ign : Bool) (sd : SimDir) (h : scanDir listing ign = .ok sd) :
+    sd.sm = listing.find? (fun n => endsWith (lower n) ".sm".toList) ∧
+    sd.ssc = listing.find? (fun n => endsWith (lower n) ".ssc".toList) := by
+  rw [scanDir_char] at h
+  split at h
+  · cases h
+  · cases h
+    have e1 : (fun n => endsWith (lower n) ".sm".toList) = isSm := by funext n; rw [isSm_def]
+    have e2 : (fun n => endsWith (lower n) ".ssc".toList) = isSsc := by funext n; rw [isSsc_def]
+    rw [e1, e2]
+    exact ⟨rfl, rfl⟩
+
+/-- without `ignore_duplicate`, the scan fails iff two entries of one kind exist -/
+theorem duplicate_iff (listing : List Str) :
+    scanDir listing false = .error .duplicate ↔
+      2 ≤ (listing.filter isSm).length ∨ 2 ≤ (listing.filter isSsc).length := by
+  rw [scanDir_char]
+  by_cases h : 2 ≤ (listing.filter isSm).length ∨ 2 ≤ (listing.filter isSsc).length
+  · simp [h]
+  · simp only [h, and_false, if_false, iff_false]
+    intro h2; cases h2
+
+/-- otherwise it succeeds -/
+theorem no_duplicate_ok (listing : List Str)
+    (h : (listing.filter isSm).length ≤ 1 ∧ (listing.filter isSsc).length ≤ 1) :
+    scanDir listing false = .ok { sm := listing.find? isSm, ssc := listing.find? isSsc } := by
+  rw [scanDir_char, if_neg]
+  omega
+
+/-- with `ignore_duplicate` the scan never fails -/
+theorem ignore_never_fails (listing : List Str) :
+    scanDir listing true = .ok { sm := listing.find? isSm, ssc := listing.find? isSsc } := by
+  rw [scanDir_char, if_neg]
+  simp
+
+/-- `duplicate` is the only error of a scan -/
+theorem only_duplicate (listing : List Str) (ign : Bool) (e : DErr) (h : scanDir listing ign = .error e) :
+    e = .duplicate ∧ ign = false := by
+  rw [scanDir_char] at h
+  split at h
+  · rename_i hc
+    cases h
+    exact ⟨rfl, hc.1⟩
+  · cases h
+
+/-- an entry that is found is an entry of the listing, of the right kind -/
+theorem found_mem (listing : List Str) (ign : Bool) (sd : SimDir) (h : scanDir listing ign = .ok sd) :
+    (∀ x, sd.sm = some x → x ∈ listing ∧ isSm x = true) ∧
+    (∀ x, sd.ssc = some x → x ∈ listing ∧ isSsc x = true) := by
+  rw [scanDir_char] at h
+  split at h
+  · cases h
+  · cases h
+    constructor
+    · intro x hx
+      exact ⟨List.mem_of_find?_eq_some hx, List.find?_some hx⟩
+    · intro x hx
+      exact ⟨List.mem_of_find?_eq_some hx, List.find?_some hx⟩
+
+/-! ### 13. which file is opened -/
+
+theorem open_prefers_ssc (sd : SimDir) :
+    (∀ x, sd.ssc = some x → sd.openTarget = .ok x) ∧
+    (sd.ssc = none → ∀ x, sd.sm = some x → sd.openTarget = .ok x) ∧
+    (sd.openTarget = .error .fileNotFound ↔ sd.ssc = none ∧ sd.sm = none) ∧
+    (∀ e, sd.openTarget = .error e → e = .fileNotFound) := by
+  obtain ⟨sm, ssc⟩ := sd
+  cases ssc <;> cases sm <;> simp [SimDir.openTarget, SimDir.simfilePath]
+
+theorem simfilePath_eq (sd : SimDir) : sd.simfilePath = sd.ssc.or sd.sm := by
+  obtain ⟨sm, ssc⟩ := sd
+  cases ssc <;> rfl
+
+/-! ### 14. packs -/
+
+theorem pack_exact (entries : List PackEntry) (name : Str) :
+    name ∈ packDirs entries ↔
+      ∃ e ∈ entries, e.name = name ∧ e.isDir = true ∧
+        ∃ item ∈ e.listing, (extMatch item T.simfileExts).isSome = true := by
+  unfold packDirs
+  simp only [List.mem_map, List.mem_filter, Bool.and_eq_true, List.any_eq_true]
+  constructor
+  · rintro ⟨e, ⟨he, hd, hi⟩, rfl⟩
+    exact ⟨e, he, rfl, hd, hi⟩
+  · rintro ⟨e, he, rfl, hd, hi⟩
+    exact ⟨e, ⟨he, hd, hi⟩, rfl⟩
+
+/-- listing order is preserved: a filter followed by a map -/
+theorem pack_order (entries : List PackEntry) :
+    packDirs entries =
+      (entries.filter fun e => e.isDir && e.listing.any fun item => isSsc item || isSm item).map (·.name) := by
+  unfold packDirs
+  congr 2
+  funext e
+  congr 2
+  funext item
+  exact extMatch_isSome_iff item
+
+theorem pack_cons (e : PackEntry) (entries : List PackEntry) :
+    packDirs (e :: entries) =
+      if e.isDir = true ∧ ∃ item ∈ e.listing, (extMatch item T.simfileExts).isSome = true
+      then e.name :: packDirs entries else packDirs entries := by
+  unfold packDirs
+  rw [List.filter_cons]
+  by_cases h : (e.isDir && e.listing.any fun item => (extMatch item T.simfileExts).isSome) = true
+  · rw [if_pos h, if_pos (by simpa using h)]
+    rfl
+  · rw [if_neg h, if_neg (by simpa using h)]
+
+/-! ### non-vacuity -/
+
+def listing0 : List Str := ["banner.png".toList, "Song.SM".toList, "song.ssc".toList, "old.sm".toList]
+
+example : scanDir listing0 true = .ok ⟨some "Song.SM".toList, some "song.ssc".toList⟩ := by
+  rw [ignore_never_fails]; congr 1
+example : scanDir listing0 false = .error .duplicate := (duplicate_iff listing0).mpr (by decide +kernel)
+example : (listing0.filter isSm).length = 2 := by decide +kernel
+example : scanDir ["a.sm".toList, "b.txt".toList] false = .ok ⟨some "a.sm".toList, none⟩ := by
+  rw [no_duplicate_ok _ (by decide +kernel)]; congr 1
+example : (⟨some "a.sm".toList, some "a.ssc".toList⟩ : SimDir).openTarget = .ok "a.ssc".toList :=
+  (open_prefers_ssc _).1 _ rfl
+example : packDirs [⟨"A".toList, true, ["x.sm".toList]⟩, ⟨"B".toList, false, ["x.sm".toList]⟩,
+    ⟨"C".toList, true, ["x.txt".toList]⟩, ⟨"D".toList, true, ["y.SSC".toList]⟩] = ["A".toList, "D".toList] := by
+  decide +kernel
+
+end Simfile.C19
